@@ -235,6 +235,7 @@ func (m *Machine) global(g *ssa.Global) *Object {
 	elem := g.Type().(*types.Pointer).Elem()
 	o := m.newObject(elem, m.zero(elem), g.String())
 	m.globals[g] = o
+	m.initOSGlobal(g, o)
 	if g.Pkg != nil && !m.inited[g.Pkg] {
 		m.uninit[g.String()] = true
 	}
